@@ -548,6 +548,14 @@ func randomScenario(prop string, rng *rand.Rand) *prodScenario {
 				ms.Value, ms.ValNil = nil, true
 			}
 		}
+		// messages with neither key nor value (0.11+: the id travels in a header)
+		if sc.Version.IsAtLeast(sarama.V0_11_0_0) && rng.Intn(5) == 0 && len(sc.Msgs) > 0 {
+			for k := 0; k < 1+rng.Intn(2); k++ {
+				ms := sc.Msgs[rng.Intn(len(sc.Msgs))]
+				ms.Key, ms.KeyNil, ms.Value, ms.ValNil = nil, true, nil, true
+				ms.Headers = []sarama.RecordHeader{{Key: []byte("vid"), Value: []byte(fmt.Sprintf("%d:", ms.ID))}}
+			}
+		}
 		// a third of the scenarios submit messages the producer must refuse (larger than
 		// MaxMessageBytes): they too are submitted messages and pass the chain once
 		if rng.Intn(3) == 0 && len(sc.Msgs) > 0 && sc.MaxMessageBytes == 0 {
